@@ -410,17 +410,30 @@ def len_call(s):
 # directly, as make_required(<all keys optional>, [required keys]) or as d1 + d2.  With routes
 # enabled every build takes the next route, so whatever a check does with "the schema" it does,
 # over a run, with schemas that arrived through every public entry point.
-ROUTES = {"on": False, "n": 0}
+ROUTES = {"on": False, "n": 0, "per_shape": {}}
 
 
 def enable_routes(on=True):
     ROUTES["on"] = on
     ROUTES["n"] = 0
+    ROUTES["per_shape"] = {}
+
+
+def _next_route(shape):
+    """routes are taken in turn *per shape* (unions of 2, 3, 4+ alternatives; dicts of 1, 2, 3+
+    keys), so that a handful of schemas of one shape is enough to meet every way of writing it"""
+    if not ROUTES["on"]:
+        return 0
+    n = ROUTES["per_shape"].get(shape, 0) + 1
+    ROUTES["per_shape"][shape] = n
+    return n
 
 
 def _build_any(D, alts, r):
     if len(alts) < 2 or r % 4 == 0:
         return D.schema.any(*alts)
+    if len(alts) >= 4:
+        r = {1: 3, 2: 1, 3: 2}[r % 4]          # the balanced form (a | b) | (c | d) first
     if r % 4 == 1:
         obj = alts[0]
         for x in alts[1:]:
@@ -507,7 +520,7 @@ def g_schema(s, _depth=0):
                 distinct = len({k for k, _, _ in entries}) == len(entries)
             except TypeError:
                 distinct = False
-            obj = _build_dict(D, entries, route if distinct else 0)
+            obj = _build_dict(D, entries, _next_route(("dict", min(len(entries), 3))) if distinct else 0)
         return obj
     if t == "any":
         obj = D.schema.any
@@ -515,7 +528,7 @@ def g_schema(s, _depth=0):
             alts = [g_schema(x, _depth + 1) for x in s["types"][0]]
             if not alts:
                 raise Unrepresentable("any with no alternatives is not declarable")
-            obj = _build_any(D, alts, route)
+            obj = _build_any(D, alts, _next_route(("any", min(len(alts), 4))))
         return obj
     if t == "alias":
         return D.schema.alias(s["name"], g_schema(s["type"], _depth + 1))
@@ -546,6 +559,8 @@ def a_schema(real):
     from niltype import Nil
     from d42.declaration import types as T
     from d42.custom_type import CustomSchema
+    if not isinstance(real, _schema_base()):
+        raise Unrepresentable("not a schema: %r" % (type(real),))     # e.g. a non-schema member of a union
     p = real.props
     if isinstance(real, CustomSchema):
         from . import customtype
